@@ -527,7 +527,10 @@ Inductive cmd :=
 | CRx (c : rxchunk)            (* rx / rxclose / rxreset *)
 | CRun                         (* run: one xmpp_run_once *)
 | CConnect                     (* connect client + the fixed negotiation up to the second stream start *)
-| COnConnect (l : list (list Z)). (* onconnect send:..,send:.. *)
+| COnConnect (l : list (list Z))  (* onconnect send:..,send:.. *)
+| CPoke (sent handled : option Z). (* smpoke: the harness sets the counters directly; not an action of the library's
+                                      environment, so it is a command of the scripted world only (the theorems over
+                                      `action` histories do not range over it) *)
 
 Fixpoint dispatch_all (bind_text : list Z) (st : state) (l : list initem) : state * list out :=
   match l with
@@ -560,6 +563,11 @@ Definition exec (bind_text : list Z) (d : dstate) (c : cmd) : dstate * list out 
       if connected (d_st d) then (d, [])
       else let '(st, o) := step bind_text (d_st d) AConnect in (mk_d st [] [], o)
   | COnConnect l => let '(st, o) := step bind_text (d_st d) (AOnConnect l) in (mk_d st (d_tx d) (d_rx d), o)
+  | CPoke s h =>
+      let st := d_st d in
+      let st := match s with Some v => set_sent_nr st (w32 v) | None => st end in
+      let st := match h with Some v => set_handled_nr st (w32 v) | None => st end in
+      (mk_d st (d_tx d) (d_rx d), [])
   end.
 
 Definition dinit : dstate := mk_d init [] [].
